@@ -160,7 +160,7 @@ inductive PerfectPre where
   | proceeds
   deriving Repr
 
-/-- everything before the optimisation loop (after the repairs D18, D19): length check, negative
+/-- everything before the optimisation loop (after the repairs D18, D19, D20): length check, negative
     entries rejected up front, normalisation check; the first pass hands out
     `min ((prob * scale) as Probability) remaining`, which can neither underflow `remaining`
     nor overflow `weight = current + 1` (`remaining ≤ 2^B - 2`), so it never faults.
@@ -177,6 +177,8 @@ def perfectPre {F : Type} (o : FOps F) (toF64 : F → Float) (B P : Nat) (probs 
     if !f64Ops.isNormal normalization || !f64Ops.signPos normalization then .rejected
     else
       let scale := (Float.ofNat free) / normalization
+      -- `!scale.is_finite()` (D20): the normalisation is too small
+      if ((f64Ops.toBits scale >>> 52) &&& 0x7ff) == 0x7ff then .rejected else
       let rec go (remaining : Nat) : List F → PerfectPre
         | [] => .proceeds
         | p :: rest =>
